@@ -110,15 +110,22 @@ func (w *World) injectWrite() error {
 	tmp := filepath.Join(w.dir, "tmp-inj")
 	os.MkdirAll(tmp, 0o755)
 	before, _ := refImage(w.dbPath, tmp)
-	tx, err := w.injConn.Begin()
-	if err != nil {
-		return err
-	}
 	defer func() {
 		if before != nil && w.injRef == nil {
 			w.injRef = before
 		}
 	}()
+	if w.injectVersioned { // C02: the injected commit is a version-stamped transaction
+		if err := commitVersion(w.injConn, int64(w.version+1)); err != nil {
+			return err
+		}
+		w.version++
+		return nil
+	}
+	tx, err := w.injConn.Begin()
+	if err != nil {
+		return err
+	}
 	w.version++
 	if _, err := tx.Exec("INSERT INTO u(v) VALUES (randomblob(60))"); err != nil {
 		tx.Rollback()
@@ -142,6 +149,7 @@ type World struct {
 	injecting bool
 	injConn   *sql.DB
 	useInject bool
+	injectVersioned bool
 	injRef    []byte // committed image just before the commit injected during the CURRENT operation (nil: none)
 	dir        string
 	dbPath     string
@@ -1044,6 +1052,8 @@ func main() {
 		case "c02":
 			if i%3 == 2 {
 				err = runC02Preexisting(rc, dir, rng)
+			} else if i%3 == 1 {
+				err = runC02Injected(rc, dir, rng, *steps)
 			} else {
 				err = runC02(rc, dir, rng, *steps)
 			}
